@@ -6,13 +6,13 @@
 package verifrt
 
 // Fresh symbolic inputs.
-func U64(name string) uint64             { return 0 }
-func U32(name string) uint32             { return 0 }
-func U8(name string) uint8               { return 0 }
-func Int(name string) int                { return 0 }
-func Bool(name string) bool              { return false }
-func Bytes(name string) []byte           { return nil }
-func Str(name string) string             { return "" }
+func U64(name string) uint64              { return 0 }
+func U32(name string) uint32              { return 0 }
+func U8(name string) uint8                { return 0 }
+func Int(name string) int                 { return 0 }
+func Bool(name string) bool               { return false }
+func Bytes(name string) []byte            { return nil }
+func Str(name string) string              { return "" }
 func ByteArray(name string, n int) []byte { return nil }
 
 // Path condition, obligations, reachability witnesses.
@@ -49,10 +49,10 @@ func Ctor(name string, args ...any) []byte    { return nil }
 func Eq(a, b []byte) bool { return false }
 
 // Non-forking connectives.
-func And(a, b bool) bool               { return a && b }
-func Or(a, b bool) bool                { return a || b }
-func Implies(a, b bool) bool           { return !a || b }
-func Ite(c bool, a, b []byte) []byte   { return a }
+func And(a, b bool) bool                { return a && b }
+func Or(a, b bool) bool                 { return a || b }
+func Implies(a, b bool) bool            { return !a || b }
+func Ite(c bool, a, b []byte) []byte    { return a }
 func IteU64(c bool, a, b uint64) uint64 { return a }
 
 // Unsupported ends the path as inconclusive; Cut ends it as outside the stated bound.
@@ -65,10 +65,13 @@ func WrapIndex(format string) int { return -1 }
 func IsLit(s string) bool         { return false }
 
 // Crash points and threads.
-func Crash()                         {}
-func RunCrashable(f func()) bool     { return false }
-func Spawn(f func())                 {}
-func Yield()                         {}
-func Block()                         {}
-func RunThreads()                    {}
-func ThreadID() int                  { return 0 }
+func Crash()                     {}
+func RunCrashable(f func()) bool { return false }
+func Spawn(f func())             {}
+func Yield()                     {}
+func Block()                     {}
+func RunThreads()                {}
+func ThreadID() int              { return 0 }
+
+// IteBool is a non-forking boolean if-then-else.
+func IteBool(c, a, b bool) bool { return a }
